@@ -2,7 +2,7 @@
    The specification is Sem/Sem.v (MatchT / FailT, arrays as the documented PEG sequence match);
    the decider vt (Sem/Validator.v) is what the correspondence check runs against the real validator.
    Only statements closed by [exact]; proofs are in Sem/Sound.v, Sem/Excl.v, Sem/Decides.v. *)
-From Cddl Require Import Sem.Syntax Sem.Validator Sem.Sem Sem.Sound Sem.Excl Sem.Decides.
+From Cddl Require Import Sem.Syntax Sem.Validator Sem.Sem Sem.Sound Sem.Excl Sem.Decides Sem.Mono Sem.Complete.
 Open Scope Z_scope.
 
 (* whenever the decider answers, the answer is the RFC verdict (jm = true: JSON reading of numbers) *)
@@ -10,6 +10,17 @@ Theorem C01_json : forall jm e f t v b,
   vt f jm e t v = Some b ->
   (b = true <-> MatchT jm e t v) /\ (b = false <-> FailT jm e t v).
 Proof. exact vmodel_decides. Qed.
+
+(* the decider is EXACTLY the specification: a derivation exists iff some amount of fuel finds it, for both
+   verdicts, and more fuel never changes an answer (so "?" only ever means: no derivation of either kind
+   exists - the schema loops without consuming data - or the fuel was too small) *)
+Theorem C01_exact : forall jm e t v,
+  (MatchT jm e t v <-> exists f, vt f jm e t v = Some true) /\
+  (FailT jm e t v <-> exists f, vt f jm e t v = Some false).
+Proof. exact vmodel_exact. Qed.
+
+Theorem C01_fuel_mono : forall jm e f f' t v b, (f <= f')%nat -> vt f jm e t v = Some b -> vt f' jm e t v = Some b.
+Proof. exact vt_fuel_mono. Qed.
 
 (* the cursor algorithm for arrays - ordered "//", greedy occurrences, zero-width guard - is the PEG semantics,
    and that semantics is deterministic *)
